@@ -471,11 +471,55 @@ def multi_address_session(sched):
                                           "stop %d: expected line %d with %s=%d, the debugger shows line %s with %s=%s" % (k + 1, line, reg, val, snap["line"], reg, snap.get(reg)),
                                           {"source": MULTI, "breakpoints": [9, 2], "snapshot": snap}))
                 return out
+            # watch expressions are evaluated again at every stop (same address, other register values)
+            ev = ses.dap.request("evaluate", {"expression": "cpu.%s" % reg.lower()})
+            if not (isinstance(ev, dict) and ev.get("success") and ev["body"]["result"] == str(val)):
+                out["violations"].append(("evaluate-differs|repeated-stop", "stop %d at line %d: evaluate cpu.%s = %r, the registers say %s=%d" % (
+                    k + 1, line, reg.lower(), (ev.get("body") or {}).get("result") if isinstance(ev, dict) else ev, reg, val), {"source": MULTI, "snapshot": snap}))
+                return out
             out["counts"]["multi_address_stops"] = out["counts"].get("multi_address_stops", 0) + 1
             ses.ev = ses.dap.event_count()
             ses.dap.request("continue", {"threadId": 1})
         if ses.wait_stop(10) != "terminated":
             out["violations"].append(("stopped-without-reason|multiply-assembled-line", "a sixth stop although the lines with breakpoints are executed five times", {"source": MULTI}))
+        return out
+    finally:
+        ses.close()
+
+
+PUSHED = ('.test "a" {\n    ldx #0\n    jsr sub\n    inx\n    jsr sub\n    inx\n    brk\nsub:\n    pha\n    lda #7\n    nop\n    pla\n    rts\n}\n')
+# lines: jsr sub = 3 and 5, inx = 4 and 6, nop (between pha and pla) = 11
+
+
+def stepout_pushed_session(sched):
+    """stepOut while the subroutine has a byte on the stack returns to the instruction behind the call (both times)."""
+    out = {"violations": [], "inconclusive": [], "counts": {}, "cover": {"stepOut-with-pushed-byte-witness"}, "sample": None, "evaluations": 1}
+    ses = Session(PUSHED, sched, trace=False)
+    try:
+        r = ses.start([11])
+        if not isinstance(r, dict) or not r.get("success"):
+            out["inconclusive"].append("stepOut session did not start")
+            return out
+        for k, (ret_line, x) in enumerate([(4, 0), (6, 1)]):
+            if ses.wait_stop(10) != "stopped":
+                out["inconclusive"].append("stepOut witness: breakpoint in the subroutine not reached")
+                return out
+            snap = ses.snapshot()
+            if snap is None or snap["line"] != 11:
+                out["inconclusive"].append("stepOut witness: unexpected stop %r" % (snap,))
+                return out
+            ses.ev = ses.dap.event_count()
+            ses.dap.request("stepOut", {"threadId": 1})
+            what = ses.wait_stop(10)
+            snap = ses.snapshot() if what == "stopped" else None
+            out["evaluations"] += 1
+            if what != "stopped" or snap is None or snap["line"] != ret_line or snap["X"] != x:
+                out["violations"].append(("step-wrong|stepOut-with-pushed-byte", "stepOut from between PHA and PLA (call %d) must stop at line %d with X=%d; got %s %r" % (
+                    k + 1, ret_line, x, what, snap), {"source": PUSHED, "sched": sched}))
+                return out
+            out["counts"]["stepout_pushed_ok"] = out["counts"].get("stepout_pushed_ok", 0) + 1
+            ses.ev = ses.dap.event_count()
+            ses.dap.request("continue", {"threadId": 1})
         return out
     finally:
         ses.close()
@@ -504,6 +548,8 @@ def main(tier, seed):
         results.append(breakpoint_while_running_session(sched))
         jobs.append(("multi-address-%d" % k, False, sched, "witness"))
         results.append(multi_address_session(sched))
+        jobs.append(("stepout-pushed-%d" % k, False, sched, "witness"))
+        results.append(stepout_pushed_session(sched))
     for job, o in zip(jobs, results):
         acc.evaluations += o["evaluations"]
         for k, v in o["counts"].items():
